@@ -27,13 +27,16 @@ KIND = {MissingFitError: "MissingFit", MismatchDimensionError: "MismatchDimensio
 def snap_val(v, depth=0):
     if isinstance(v, np.ndarray):
         return ("nd", v.shape, v.dtype.str, v.tobytes())
-    if isinstance(v, (list, tuple)):
+    from collections import deque
+    if isinstance(v, (list, tuple, deque)):
         return tuple(snap_val(x, depth + 1) for x in v)
+    if isinstance(v, (np.generic, float, int, bool, str, type(None))):
+        return repr(v)
     if isinstance(v, dict):
         return tuple(sorted((str(k), snap_val(x, depth + 1)) for k, x in v.items()))
     if callable(v):
         return "callable"
-    if hasattr(v, "__dict__") and depth < 4:
+    if hasattr(v, "__dict__") and depth < 10:
         return ("obj", type(v).__name__, snap_val({k: x for k, x in vars(v).items() if k not in ("_callbacks", "detector")}, depth + 1))
     return repr(v)
 
